@@ -208,6 +208,10 @@ pub enum Ev {
     KeygenBurst { user: usize, pol: PolArg, n: usize },
     /// The master key comes back with one more tracer (higher tracing level).
     RaiseTracing,
+    /// The attribute-id counter of the structure jumps forward to `to`; with `back = Some(b)`, to
+    /// `to + current - b`, so that the next identifiers are congruent modulo `to` (a power of
+    /// two) to those of the `b` attributes created last.
+    IdCounterJump { to: u64, #[serde(default)] back: Option<u8> },
     /// C11, "ML-KEM material bound into the secret": the user's key with the ML-KEM
     /// decapsulation key of the secret that opens `slot` replaced by another one must no
     /// longer open a hybridized encapsulation.
@@ -261,6 +265,7 @@ impl Ev {
             Ev::ChurnIds { .. } => "ChurnIds",
             Ev::KeygenBurst { .. } => "KeygenBurst",
             Ev::RaiseTracing => "RaiseTracing",
+            Ev::IdCounterJump { .. } => "IdCounterJump",
             Ev::PqBinding { .. } => "PqBinding",
             Ev::EncryptOtherThread { .. } => "EncryptOtherThread",
         }
